@@ -479,10 +479,25 @@ package kv
 //@ requires forall i int :: 0 <= i && i < len(b.Puts) ==> b.Puts[i] != nil
 //@ requires forall i int :: 0 <= i && i < len(b.Deletes) ==> b.Deletes[i] != nil
 //@ requires forall i int :: 0 <= i && i < len(b.DeleteRanges) ==> b.DeleteRanges[i] != nil
+//@ assert at call addASCIILong#0: key == "__oxia/commit-offset" && value == commitOffset
+//@ assert at call addASCIILong#1: key == "__oxia/last-version-id" && value == d.versionIdTracker.v
 //@ assert at call Commit#0: ghost(commits, batch) == 0 && ghset(present, batch, "__oxia/commit-offset") && ghset(present, batch, "__oxia/last-version-id") && (old(d.notificationsEnabled) ==> notifications != nil && ghset(present, batch, nbKey(commitOffset)))
 //@ assert at call UpdatedCommitOffset#0: ghost(commits, batch) == 1 && offset == commitOffset
 //@ ensures err == nil ==> res != nil && len(res.Puts) == len(b.Puts) && len(res.Deletes) == len(b.Deletes) && len(res.DeleteRanges) == len(b.DeleteRanges)
 //@ ensures d.versionIdTracker.v >= old(d.versionIdTracker.v) && d.versionIdTracker.v <= old(d.versionIdTracker.v) + len(b.Puts)
+//@ modifies *
+
+// What a restart reads back: the commit offset and the last version id come from the
+// keys ProcessWrite stores them under.
+//
+//@ func db.ReadCommitOffset(d) (off, err)
+//@ property C07
+//@ assert at call readASCIILong#0: key == "__oxia/commit-offset"
+//@ modifies *
+
+//@ func db.readLastVersionId(d) (id, err)
+//@ property C07 C12
+//@ assert at call readASCIILong#0: key == "__oxia/last-version-id"
 //@ modifies *
 
 //@ func DB.ReadCommitOffset
